@@ -184,7 +184,7 @@ impl Scenario for Skip {
             0 | 1 => p.stream.eof_at = Some(rng.below(p.doc.len().max(1)) as u32),
             2 if p.stream.kind != SourceKind::Slice => {
                 let calls = (p.stream.cuts.len() * 2 + 8) as usize;
-                p.stream.faults.push(FaultAt { call: rng.below(calls) as u32, fault: Fault::Err(rng.below(5) as u8) });
+                p.stream.faults.push(FaultAt { call: rng.below(calls) as u32, fault: Fault::Err(rng.below(10) as u8) });
                 p.stream.faults.sort_by_key(|f| f.call);
             }
             3 if p.stream.kind != SourceKind::Slice => {
